@@ -20,6 +20,7 @@ FORMULAS = [
     "y ~ x + (1|g)", "y ~ (x|g)", "y ~ (f|g)", "y ~ (0 + f|g)", "y ~ (1|g) + (x|h)", "y ~ (x|g) + (f|h) + (1|g:h)", "y ~ (0 + f:x|g)", "y ~ f + (x + f|g)", "y ~ (poly(x, 2, raw=True)|g)",
     "y ~ (1|g) + (1|h) + (0 + x|g)", "y ~ (x|g + h)", "y ~ 0 + g:poly(x, 2, raw=True)",
     "y ~ C(kf) + x", "y ~ (1|kf)", "y ~ C(kb):x",
+    "y ~ ws + x", "y ~ (1|ws)", "ws ~ x",  # levels that differ only by surrounding blanks: labels stay distinct
     "y ~ 0 + f + yr", "y ~ yr", "y ~ f:yr",  # an all-integer matrix (yr: calendar years and other ints beyond one byte)
 ]
 CHAINS = [[], ["seen"], ["unseen"], ["seen", "unseen"], ["unseen", "seen"], ["unseen", "unseen"]]
